@@ -694,6 +694,7 @@ func (a *Agent) connectivityChecks() { //nolint:cyclop
 	lastConnectionState := ConnectionState(0)
 	checkingDuration := time.Time{}
 	checkingTimeout := a.initialCheckingTimeout()
+	checkingGeneration := a.generation.Load()
 
 	contact := func() {
 		if err := a.loop.Run(a.loop, func(_ context.Context) {
@@ -707,9 +708,12 @@ func (a *Agent) connectivityChecks() { //nolint:cyclop
 				// In the future it may be restarted though
 				return
 			case ConnectionStateChecking:
-				// We have just entered checking for the first time so update our checking timer
-				if lastConnectionState != a.connectionState {
+				// We have just entered checking for the first time, or a Restart began a new
+				// session since the last tick, so update our checking timer
+				if generation := a.generation.Load(); lastConnectionState != a.connectionState ||
+					generation != checkingGeneration {
 					checkingDuration = time.Now()
+					checkingGeneration = generation
 				}
 
 				// The initial checking deadline has elapsed, so set the connection to Failed.
